@@ -1,6 +1,7 @@
 //! C08 — every digest the builder records is the true digest.
 
 use super::CheckDef;
+use std::os::unix::fs::OpenOptionsExt;
 use crate::gen::build::*;
 use crate::gen::corpus::*;
 use crate::model::codec::*;
@@ -291,6 +292,67 @@ fn run(ctx: &Ctx, rep: &Report) {
             }
         }
         rep.counts(&local);
+    }
+    // sources whose size as reported by stat() says nothing about their content: files of the proc
+    // file system (size 0) and a FIFO fed by another thread; whatever gets archived must match its digest
+    {
+        let dir = ctx.work_dir("odd-sources");
+        let fifo = dir.join("fifo");
+        let cpath = std::ffi::CString::new(fifo.to_string_lossy().as_bytes()).unwrap();
+        let have_fifo = unsafe { libc::mkfifo(cpath.as_ptr(), 0o644) } == 0;
+        let mut sources: Vec<std::path::PathBuf> = ["/proc/version", "/proc/filesystems", "/proc/sys/kernel/ostype"].iter().map(std::path::PathBuf::from).filter(|p| p.exists()).collect();
+        if have_fifo {
+            sources.push(fifo.clone());
+        }
+        for (k, src) in sources.iter().enumerate() {
+            let feeder = if *src == fifo {
+                let f = fifo.clone();
+                Some(std::thread::spawn(move || {
+                    // one open()/write per reader: the builder may open the source more than once
+                    for _ in 0..2 {
+                        if let Ok(mut w) = std::fs::OpenOptions::new().write(true).open(&f) {
+                            use std::io::Write;
+                            let _ = w.write_all(&vec![b'p'; 70_000]);
+                        }
+                    }
+                }))
+            } else {
+                None
+            };
+            rep.eval(1);
+            let r = guard(|| {
+                rpm::PackageBuilder::new("odd", "1", "MIT", "noarch", "odd sources")
+                    .compression([rpm::CompressionType::None, rpm::CompressionType::Gzip, rpm::CompressionType::Zstd][k % 3])
+                    .with_file(src, rpm::FileOptions::new(format!("/opt/odd/f{k}")).mode(rpm::FileMode::regular(0o644)))
+                    .and_then(|b| b.build())
+                    .and_then(|p| pkg_bytes(&p))
+            });
+            if *src == fifo {
+                // unblock a feeder that is still waiting for a second reader
+                // (never joined: a feeder whose FIFO nobody opens again simply stays blocked until exit)
+                for _ in 0..3 {
+                    let _ = std::fs::OpenOptions::new().read(true).custom_flags(libc::O_NONBLOCK).open(&fifo);
+                    std::thread::sleep(std::time::Duration::from_millis(10));
+                }
+                drop(feeder);
+            }
+            match r {
+                Ok(Ok(bytes)) => match guard(|| judge_bytes(&bytes, None)) {
+                    Ok(Ok(ms)) => {
+                        rep.nontrivial(hash_bytes(&bytes[..bytes.len().min(4096)]) ^ 0x0dd);
+                        rep.count("odd_sources.judged", 1);
+                        for (key, what) in ms {
+                            rep.violation(key, format!("source {}: {what}", src.display()), json!({"label": "odd-source", "source": src.display().to_string()}), 0);
+                        }
+                    }
+                    Ok(Err(e)) => rep.violation(format!("emitted-package-unreadable:{}", crate::util::par::normalize_msg(&e)), format!("source {}: {e}", src.display()), json!({"label": "odd-source"}), 0),
+                    Err(p) => rep.inconclusive(format!("oracle panicked: {}", p.message)),
+                },
+                Ok(Err(_)) => rep.count("odd_sources.refused", 1),
+                Err(p) => rep.violation(format!("panic:{}", p.site()), format!("building from {} panics: {}", src.display(), p.message), json!({"label": "odd-source"}), 0),
+            }
+        }
+        let _ = std::fs::remove_dir_all(&dir);
     }
     let nl = ladder().len() as u64;
     let n: u64 = nl + ctx.tier.pick(64, 4000);
